@@ -46,17 +46,17 @@ SEQ = {
                      "non-trivial = a specify, a struct creation and a write"),
     "C11": dict(families=["accum", "accchain"], scale=2, needs=["op:accum", "accv", "op:set"],
                 rule="accum family; non-trivial = accumulated() requested, values pushed and a write"),
-    "C12": dict(families=["fix"], needs=["wic", "op:set"],
+    "C12": dict(families=["fix", "fixshape"], needs=["wic", "op:set"],
                 rule="fix family: 1-4 mutually recursive functions with cycle_initial = bottom (0) over 3-bit sets, bodies are "
                      "unions of masked calls, input-controlled (conditionally formed, nested) cycles, default and joining "
                      "cycle_fn, plain consumers and leaves; every function requested as entry point; non-trivial = the "
                      "history iterated a cycle and wrote an input"),
-    "C13": dict(families=["fb"], needs=["cres", "op:set"],
+    "C13": dict(families=["fb", "fbshape"], needs=["cres", "op:set"],
                 rule="fb family: same shapes with cycle_result; non-trivial = a fallback was used and an input written"),
-    "C14": dict(families=["pcycle"], par=["parpcycle"], needs=["panic:cycle", "op:set"],
+    "C14": dict(families=["pcycle", "pcyclefix"], par=["parpcycle"], needs=["panic:cycle", "op:set"],
                 rule="pcycle family: plain functions whose backward calls are input-controlled; non-trivial = a cycle "
                      "panic occurred and an input was written"),
-    "C15": dict(families=["diverge"], needs=["panic:iterlimit", "op:set"], scale=0.1,
+    "C15": dict(families=["diverge"], needs=["panic:iterlimit", "op:set"], scale=0.4,
                 rule="diverge family: f = NOT f under an input switch, plus a convergent cycle and unrelated functions; "
                      "non-trivial = the iteration limit was hit and an input written"),
     "C23": dict(families=["core", "lru", "struct", "intern", "mixed"], needs=["drop", "retained"],
@@ -68,7 +68,7 @@ PAR = {
     "C16": dict(models=["syncproto"], par=["pardag"], needs=["hk:sync_claim", "we", "tstart"],
                 rule="pardag family: acyclic programs with shared sub-queries, 3 rounds (writes between rounds) of 2-4 real threads "
                      "on clones issuing 1-4 requests each, seeded schedule jitter; non-trivial = threads ran and functions executed"),
-    "C17": dict(models=["syncproto"], par=["pardag"], monitors=("par",), needs=["hk:sync_claim", "we", "tstart"],
+    "C17": dict(models=["syncproto"], par=["pardag", "parmemo"], monitors=("par",), needs=["hk:sync_claim", "we", "tstart"],
                 rule="same runs as C16; every WillExecute is checked against the set of keys already executed in the revision"),
     "C18": dict(models=["syncproto"], par=["parfix", "parfb"], needs=["hk:sync_claim", "we", "tstart"],
                 rule="fixpoint / fallback cycle programs entered concurrently at different members from 2-4 threads"),
@@ -87,6 +87,8 @@ TIERS = {
 }
 # families that need long histories
 NOPS_FACTOR = {"churn": 3, "reclaim": 2}
+# template families that need many samples
+JOBS_FACTOR = {"fixshape": 5, "fbshape": 3, "parmemo": 3}
 
 ASSUME_SEQ = [
     "TLC evaluates specs/core/CoreTrace.tla + Sem.tla faithfully; the harness interpreter logs what it does",
@@ -124,7 +126,7 @@ def run_seq(pid, tier, seed, replay):
         fams = cfg["families"]
         with ThreadPoolExecutor(max_workers=min(8, len(fams))) as ex:
             futs = [ex.submit(seqcheck.run_family, binary, fam, seed * 1000 + i,
-                              max(10, int(t["njobs"] * cfg.get("scale", 1))), t["nops"] * NOPS_FACTOR.get(fam, 1), wd)
+                              max(10, int(t["njobs"] * cfg.get("scale", 1) * JOBS_FACTOR.get(fam, 1))), t["nops"] * NOPS_FACTOR.get(fam, 1), wd)
                     for i, fam in enumerate(fams)]
             results += [f.result() for f in futs]
         if cfg.get("par"):
@@ -255,7 +257,7 @@ def run_par_families(binary, fams, tier, seed, wd, monitors=("par", "sync")):
     t = PAR_TIERS[tier]
     # thread-heavy runs: keep the number of concurrently running drivers small, TLC runs are single-threaded
     with ThreadPoolExecutor(max_workers=4) as ex:
-        futs = [ex.submit(parcheck.run_par_family, binary, fam, seed * 1000 + 500 + i, t["njobs"], wd, None, 3, monitors)
+        futs = [ex.submit(parcheck.run_par_family, binary, fam, seed * 1000 + 500 + i, t["njobs"] * JOBS_FACTOR.get(fam, 1), wd, None, 3, monitors)
                 for i, fam in enumerate(fams)]
         return [f.result() for f in futs]
 
